@@ -205,9 +205,11 @@ def dParseTokens : Nat → List Tok → List DItem → Option DItem → Nat → 
         match decided with
         | .error e => .error e
         | .ok newItem =>
-          let item : Option DItem := match newItem with | some i => some i | none => prev
-          match item with
-          | none => .error .unboundLocal        -- `range_item` referenced before assignment
+          match newItem with
+          | none =>
+            -- an empty item is skipped (`range_item = None` at the start of every iteration)
+            if last.isEof then .ok (acc, r.maxAfter, r.maxBefore)
+            else dParseTokens fuel rest acc prev r.maxAfter r.maxBefore
           | some it =>
             let ov : Option Bool := acc.foldl (fun o old => match o with
               | none => none
